@@ -29,6 +29,7 @@ import (
 	"github.com/nuts-foundation/go-did/did"
 	"github.com/nuts-foundation/go-did/vc"
 	"github.com/nuts-foundation/nuts-node/audit"
+	"github.com/nuts-foundation/nuts-node/vcr/credential"
 	"github.com/nuts-foundation/nuts-node/vcr/holder"
 	"github.com/nuts-foundation/nuts-node/vcr/signature/proof"
 	"pgregory.net/rapid"
@@ -53,9 +54,28 @@ type c01cCase struct {
 	// credentials and holder name the presenter)
 	Near       string `json:"near,omitempty"`
 	SignerNear bool   `json:"signerNear,omitempty"`
+	// Revoked = k > 0: credential k-1 has a revocation in the node's revocation store (by credential id) when the
+	// presentation is verified. StoreFault (c01RevStoreFaults; "" = healthy): after the verification over the healthy
+	// store the by-id look-up starts failing and the presentation is verified once more.
+	Revoked    int    `json:"revoked,omitempty"`
+	StoreFault string `json:"storeFault,omitempty"`
 }
 
 func c01cGen(t *rapid.T) c01cCase {
+	c := c01cGenShape(t)
+	if len(c.Creds) > 0 && rapid.IntRange(0, 3).Draw(t, "revoke") == 0 {
+		c.Revoked = 1 + rapid.IntRange(0, len(c.Creds)-1).Draw(t, "revoked")
+	}
+	if rapid.IntRange(0, 3).Draw(t, "storeFault") == 0 {
+		c.StoreFault = rapid.SampledFrom(c01RevStoreFaults).Draw(t, "storeFaultKind")
+		if len(c.Creds) > 0 && rapid.Bool().Draw(t, "storeFaultRevoked") {
+			c.Revoked = 1 + rapid.IntRange(0, len(c.Creds)-1).Draw(t, "revokedUnderFault")
+		}
+	}
+	return c
+}
+
+func c01cGenShape(t *rapid.T) c01cCase {
 	// a third of the cases is steered towards the self-attested corner (presenter = holder, proof-less or self-issued
 	// credentials, mostly JSON-LD envelope, mostly tampered with after signing)
 	mode := rapid.IntRange(0, 5).Draw(t, "corner")
@@ -138,7 +158,17 @@ func c01cRun(x *h.Ctx, c c01cCase) {
 	if presenter == O {
 		other = S
 	}
-	v, _ := f.newVerifier(x)
+	var faultStore *c01FaultStore
+	for _, k := range c01RevStoreFaults {
+		if k == c.StoreFault {
+			faultStore = f.newFaultStore(x, k)
+		}
+	}
+	revStore := f.revStore
+	if faultStore != nil {
+		revStore = faultStore
+	}
+	v, _ := f.newVerifierOn(x, revStore)
 	wallet := f.newWallet(v)
 	nearVariant := "path"
 	for _, nv := range c01NearMissVariants {
@@ -242,6 +272,7 @@ func c01cRun(x *h.Ctx, c c01cCase) {
 		spec.ID = fmt.Sprintf("%s#c-%d", issuer.DID.String(), f.seq.Add(1))
 		creds = append(creds, f.signCredential(x, spec))
 	}
+	revoked := c.Revoked > 0 && c.Revoked <= len(creds)
 	// presentation through the real wallet
 	now := time.Now()
 	opts := holder.PresentationOptions{Format: c.VPFormat, ProofOptions: proof.ProofOptions{Created: now, Expires: c01Ptr(now.Add(time.Hour))}}
@@ -303,6 +334,15 @@ func c01cRun(x *h.Ctx, c c01cCase) {
 	if expect == "accept" && tampered != "" {
 		expect, why = "reject", tampered
 	}
+	if revoked {
+		// the revocation arrives after the wallet built the presentation (the wallet's own verifier would refuse it otherwise)
+		rc := creds[c.Revoked-1]
+		x.NoErr(revStore.StoreRevocation(credential.Revocation{Issuer: rc.Issuer, Subject: *rc.ID, Date: issued.Add(time.Second)}), "StoreRevocation")
+		if expect == "accept" {
+			expect, why = "reject", "credential-revoked"
+		}
+		x.Class("carries-revoked-credential")
+	}
 	if expect == "accept" {
 		why = "ok"
 	}
@@ -322,6 +362,27 @@ func c01cRun(x *h.Ctx, c c01cCase) {
 	case expect == "accept" && verr != nil:
 		x.Logf("rejected: %v\n%s", verr, raw)
 		x.Violate("vp-rejected:"+c.VPFormat, "VerifyVP rejects a presentation that satisfies the documented rules")
+	}
+	if faultStore == nil {
+		return
+	}
+	// the same presentation once the revocation store cannot be read: what had to be rejected still has to be (an
+	// error is a rejection); what was valid may be refused (the node cannot know): no expectation
+	faultStore.fail(x)
+	_, ferr := v.VerifyVP(*parsed, true, true, nil)
+	x.Class("rev-store-fault=" + faultStore.kind)
+	if faultStore.reads > 0 {
+		x.Class("rev-store-fault-hit-by-a-look-up")
+	}
+	if expect == "reject" && ferr == nil {
+		if why == "credential-revoked" {
+			why = "credential-revoked-while-revocation-store-unreadable"
+		}
+		x.Logf("accepted while the revocation store is unreadable (%s); expected rejection (%s)\n%s", faultStore.kind, why, raw)
+		x.Violate("vp-accepted:"+why+":"+c.VPFormat, "VerifyVP accepts a presentation that must be rejected (%s) once the revocation store fails (%s)", why, faultStore.kind)
+	}
+	if why == "credential-revoked" {
+		x.Class("revoked-credential+store-unreadable+otherwise-valid")
 	}
 }
 
